@@ -111,12 +111,12 @@ type vBehaviour struct {
 }
 
 type vChainRun struct {
-	b         []vBehaviour
-	events    []int // +i+1 = handler i entered, -(i+1) = handler i left
-	written   bool
-	cancelled bool
-	started   int
-	ctx       *vReqCtx
+	b          []vBehaviour
+	events     []int // +i+1 = handler i entered, -(i+1) = handler i left
+	written    bool
+	cancelled  bool
+	started    int
+	ctx        *vReqCtx
 	drawn      []bool
 	withCancel bool
 	deep       int // the first `deep` handlers may call Next() twice, the others at most once
